@@ -408,6 +408,19 @@ class PyArrV(V):
         a, _n = self.get(st)
         return [Ev(st, new_pyarr(st, a, n, elem=self.elem, oneshot=False))]
 
+    def binop(self, E, op, other, st):
+        """list + iterable-of-unknown-length (also `lst += other`): the old elements, then some more"""
+        import ast as _ast
+        if isinstance(op, _ast.Add) and not self.oneshot and (isinstance(other, (PyArrV, OpaqueV)) or E.iter_items(other, st) is not None):
+            a, n = self.get(st)
+            more = z3.Int(fresh_name("n_more"))
+            st.assume(more >= 0)
+            b = z3.Const(fresh_name("parr"), PARR)
+            j = z3.Int("cat!j")
+            st.assume(z3.ForAll([j], z3.Implies(z3.And(0 <= j, j < n), b[j] == a[j])))
+            return [Ev(st, new_pyarr(st, b, n + more))]
+        return None
+
     def call_method(self, E, name, st, args, kwargs, fx, site):
         a, n = self.get(st)
         if name == "append":
